@@ -255,6 +255,19 @@ def run_poly(case):
     if x2 != x or y2 != y:
         S.problem("from_shorthand(%r) afterwards" % text, [x, y], [x2, y2], detail="partner chords changed")
     S.outcome((len(want), hit, len(got) if isinstance(got, list) else -1))
+    # three layers 'X|Y|X': the statement fixes 'X|Y' only, so either grouping is accepted -- but nothing else
+    # (in particular no layer may vanish)
+    if xs in ("", "m", "7") and ys in ("", "m7", "sus4"):
+        text3 = xr + xs + "|" + yr + ys + "|" + xr + xs
+        right = fold_poly(fold_poly(x, y)[0], x)[0]          # X | (Y|X)
+        left = fold_poly(x, fold_poly(y, x)[0])[0]           # (X|Y) | X
+        got3, e3 = call(chords.from_shorthand, text3)
+        S.trans(1)
+        S.count("poly_three_layers")
+        if e3 is not None:
+            S.problem("from_shorthand(%r)" % text3, right, err_name(e3), detail="three stacked chords")
+        elif got3 != right and got3 != left:
+            S.problem("from_shorthand(%r)" % text3, {"X|(Y|X)": right, "(X|Y)|X": left}, got3, detail="three stacked chords")
 
 
 # ---------------------------------------------------------------------------------------
